@@ -42,6 +42,10 @@ structure Sc where
   shutdownOk : List Nat := []        -- sides whose Shutdown() returned nil
   lateHashes : List Nat := []        -- payload hashes of writes that were rejected (after shutdown began, on a closed stream)
   badLens   : List Nat := []
+  readers   : Nat := 1               -- goroutines reading one stream concurrently (teardown mode): the order in which their reads are LOGGED is not the delivery order
+  closeCalled : List Nat := []       -- sides on which Close() was called by the scenario's injection
+  sdDone    : List Nat := []         -- sides that sent or were handed a SHUTDOWN-COMPLETE
+  closeAt   : List (Nat × Nat × Nat) := []  -- (writer side, stream, number of write lines logged when its Close returned)
   deriving Inhabited
 
 def kvs (toks : List String) : List (String × String) :=
@@ -119,14 +123,28 @@ def noteTx (sc : Sc) (side : Nat) (summary : List String) : Sc := Id.run do
 
 def msgsOf (sc : Sc) (dir si : Nat) : List Msg :=
   (sc.writes.toList.filter fun (d, s, _, ok) => d == dir && s == si && ok).map fun (_, _, m, _) => m
+/-- accepted writes on a stream, split at log position `cut` (storm mode: `cut` = where `Stream.Close`, called from ANOTHER
+goroutine, returned; a write logged later was accepted although the stream had been closed) -/
+def msgsSplit (sc : Sc) (dir si cut : Nat) : List Msg × List Msg :=
+  let idx := (List.range sc.writes.size).zip sc.writes.toList
+  let mine := idx.filter fun (_, d, s, _, ok) => d == dir && s == si && ok
+  ((mine.filter fun (i, _) => i < cut).map (fun (_, _, _, m, _) => m), (mine.filter fun (i, _) => i ≥ cut).map (fun (_, _, _, m, _) => m))
+
 def readsOf (sc : Sc) (side si : Nat) : List Msg :=
   (sc.reads.toList.filter fun (d, s, _) => d == side && s == si).map fun (_, _, m) => m
 
 /-- history checks at the end of a scenario -/
 def checkFin (sc : Sc) (fin : List (String × String)) (leakNames : String) : List String := Id.run do
   let mut out : List String := []
-  if getN fin "leaks" != 0 then out := out ++ [s!"[C09] goroutines of the package still alive after Close: {leakNames}"]
-  if getN fin "wrAfterClose" != 0 then out := out ++ ["[C09] write to the connection after it was closed"]
+  let c20 := if sc.mode == "storm" then "C20," else ""
+  let names := (leakNames.splitOn ",").filter (· != "")
+  let dl := names.filter fun n => (n.splitOn "SetReadDeadline").length ≥ 2
+  let other := names.filter fun n => (n.splitOn "SetReadDeadline").length < 2
+  if getN fin "leaks" != 0 && (!other.isEmpty || dl.isEmpty) then
+    out := out ++ [s!"[{c20}C09] goroutines of the package still alive after Close: {",".intercalate other}"]
+  if !dl.isEmpty then
+    out := out ++ [s!"[{c20}C09] read-deadline helper goroutine outlives its association (it only ends at the deadline): {dl.length} x {dl.head!}"]
+  if getN fin "wrAfterClose" != 0 then out := out ++ [s!"[{c20}C09] write to the connection after it was closed"]
   if sc.connFail || sc.connected < 2 then return out
   -- metadata agreement (C04)
   let il := getB sc.hdr "ilA" && getB sc.hdr "ilB"
@@ -139,21 +157,33 @@ def checkFin (sc : Sc) (fin : List (String × String)) (leakNames : String) : Li
     if getB m "zcrecv" != ownZc then out := out ++ [s!"[C04,C13] side {side} zero-checksum receive flag {getB m "zcrecv"} differs from its own option {ownZc}"]
   -- delivery histories (in partial-reliability scenarios a lost or misdelivered message on ANY stream is also a C07 violation:
   -- abandoned messages must not block or destroy anything else)
-  let x07 := if sc.mode == "pr" then "C07," else if sc.mode == "api" then "C18," else ""
+  let x07 := if sc.mode == "pr" then "C07," else if sc.mode == "api" then "C18," else if sc.mode == "storm" then "C20," else ""
   for st in sc.streams do
     let ws := msgsOf sc st.dir st.id
     let rs := readsOf sc (1 - st.dir) st.id
     let reliable := st.relType == 0
-    if reliable && !st.unordered then
+    -- storm mode: Stream.Close may come from another goroutine while a write is inside WriteSCTP. What was accepted before
+    -- Close returned must arrive; a write accepted AFTER Close returned is judged separately (known finding K20-write-close-race)
+    let cut := if sc.mode == "storm" then
+        match sc.closeAt.find? (fun (d, s, _) => d == st.dir && s == st.id) with
+        | some (_, _, n) => n
+        | none => sc.writes.size
+      else sc.writes.size
+    let (wsB, wsLate) := msgsSplit sc st.dir st.id cut
+    if reliable && !st.unordered && sc.readers ≤ 1 then
       if !isPrefixOf rs ws then
         out := out ++ [s!"[{x07}C01] ordered reliable stream {st.id}: reads are not a prefix of the accepted writes ({describeDiff rs ws})"]
-      else if sc.ended && rs.length != ws.length then
-        out := out ++ [s!"[{x07}C02,C01] ordered reliable stream {st.id}: {rs.length} of {ws.length} messages delivered after the network healed"]
+      else if sc.ended && rs.length < wsB.length then
+        out := out ++ [s!"[{x07}C02,C01] ordered reliable stream {st.id}: {rs.length} of {wsB.length} messages delivered after the network healed"]
     else if reliable then
       if !isSubMultiset rs ws then
         out := out ++ [s!"[{x07}C06] unordered reliable stream {st.id}: a read does not match a distinct written message ({describeDiff rs ws})"]
-      else if sc.ended && rs.length != ws.length then
-        out := out ++ [s!"[{x07}C02,C06] unordered reliable stream {st.id}: {rs.length} of {ws.length} messages delivered after the network healed"]
+      else if sc.ended && !isSubMultiset wsB rs then
+        out := out ++ [s!"[{x07}C02,C06] unordered reliable stream {st.id}: {rs.length} of {wsB.length} messages delivered after the network healed"]
+    if reliable && sc.ended then
+      for m in wsLate do
+        if !rs.contains m then
+          out := out ++ [s!"[C20,C14] stream {st.id}: a write of {m.len} bytes was accepted (no error) after Stream.Close, called from another goroutine, had returned, and was never delivered: the write passed its state test before the Close and was queued behind the reset request"]
     else if !st.unordered then
       if !isSubsequenceOf rs ws then
         out := out ++ [s!"[C06,C07] ordered partially reliable stream {st.id}: reads are not a subsequence of the writes ({describeDiff rs ws})"]
